@@ -74,8 +74,13 @@ fn mk_cert(tag: u32, coin: Option<BigNum>, script: bool, salt: u64, id: Id) -> C
         2 => Certificate::new_stake_delegation(&StakeDelegation::new(&c, &pool)),
         3 => {
             // pledge / cost are coins that are NOT deposits; operator = pool, reward account = cred, the rest = var
+            // bit 1 of var only decides the insertion order of the two owners (Ed25519KeyHashes compares in insertion order:
+            // two different certificates); everything else comes from var with that bit cleared
+            let swap = var & 2 != 0;
+            let var = var & !2usize;
             let mut owners = Ed25519KeyHashes::new();
-            owners.add(&keyhash(salt, var, 3));
+            let (o1, o2) = (keyhash(salt, var, 3), keyhash(salt, var, 28));
+            if swap { owners.add(&o2); owners.add(&o1); } else { owners.add(&o1); owners.add(&o2); }
             let mut relays = Relays::new();
             if var % 3 == 1 { relays.add(&Relay::new_single_host_name(&SingleHostName::new(Some(3001), &DNSRecordAorAAAA::new(format!("r{}.example", var)).unwrap()))); }
             let metadata = if var % 2 == 1 { Some(PoolMetadata::new(&URL::new(format!("https://p.example/{}", var)).unwrap(),
@@ -137,6 +142,11 @@ fn param_update(act: usize) -> ProtocolParamUpdate {
 /// governance action and anchor from `act` (shape = act % 14, content injective in act), return address from `ret`
 /// (network and key / script credential vary with it)
 fn mk_proposal(deposit: &BigNum, salt: u64, act: usize, ret: usize) -> VotingProposal {
+    // update-committee shape: bit (act / 14) % 2 only decides the INSERTION ORDER of the two members_to_remove; everything
+    // else comes from the action number with that bit cleared.  Credentials compares its members in insertion order, so the
+    // two orders are two different proposals (for the body's set, for the builder's map and for the model: other <action>)
+    let order = act % ACTION_SHAPES == 13 && (act / ACTION_SHAPES) % 2 == 1;
+    let act = if order { act - ACTION_SHAPES } else { act };
     let aid = gov_action_id(salt, act);
     let policy = scripthash(salt, act, 18);
     let version = ProtocolVersion::new(10 + act as u32, 0);
@@ -161,8 +171,9 @@ fn mk_proposal(deposit: &BigNum, salt: u64, act: usize, ret: usize) -> VotingPro
             let mut committee = Committee::new(&UnitInterval::new(&BigNum::from(2u64), &BigNum::from(3u64)));
             committee.add_member(&cred(act % 2 == 1, salt, act, 20), 500 + act as u32);
             let mut remove = Credentials::new();
-            remove.add(&cred(false, salt, act, 21));
-            GovernanceAction::new_new_committee_action(&if (act / ACTION_SHAPES) % 2 == 0 { UpdateCommitteeAction::new(&committee, &remove) }
+            let (m1, m2) = (cred(false, salt, act, 21), cred(act % 3 == 1, salt, act, 22));
+            if order { remove.add(&m2); remove.add(&m1); } else { remove.add(&m1); remove.add(&m2); }
+            GovernanceAction::new_new_committee_action(&if (act / (2 * ACTION_SHAPES)) % 2 == 0 { UpdateCommitteeAction::new(&committee, &remove) }
                                                          else { UpdateCommitteeAction::new_with_action_id(&aid, &committee, &remove) })
         }
     };
@@ -810,7 +821,21 @@ fn gen(dir: &str) {
             let mut ids: Vec<(usize, usize)> = (0..k).map(|_| (r.below(4 * ACTION_SHAPES as u64) as usize, r.below(6) as usize)).collect();
             ids[0].0 = shape + ACTION_SHAPES * r.below(4) as usize;
             if r.chance(1, 3) { let j = r.below(k as u64) as usize; ids.swap(0, j); }
+            if shape == 13 && v % 2 == 0 {
+                // the same update-committee proposal with the other insertion order of members_to_remove
+                let j = ids.iter().position(|x| x.0 % ACTION_SHAPES == 13).unwrap();
+                let twin = if (ids[j].0 / ACTION_SHAPES) % 2 == 0 { ids[j].0 + ACTION_SHAPES } else { ids[j].0 - ACTION_SHAPES };
+                let dep = g.props.as_ref().unwrap()[j];
+                let pos = r.below(ids.len() as u64 + 1) as usize;
+                g.props.as_mut().unwrap().insert(pos, dep); ids.insert(pos, (twin, ids[j].1));
+            }
             g.prop_ids = Some(ids);
+            if shape == 3 && v % 2 == 0 {
+                // two registrations of one pool that differ only in the insertion order of the owners (var and var ^ 2)
+                let (c, p, w) = (r.below(3) as usize, r.below(3) as usize, r.below(8) as usize);
+                g.certs = Some(vec![(3, None, false), (3, None, false)]);
+                g.cert_ids = Some(vec![Id { cred: c, pool: p, var: w }, Id { cred: c, pool: p, var: w ^ 2 }]);
+            } else
             if r.chance(1, 2) { let n = r.below(4) as usize; g.certs = Some((0..n).map(|_| rand_cert(&mut r, &mut coin, 20)).collect()); }
             if r.chance(1, 3) { g.wdrl = Some(vec![(r.chance(1, 3), coin(&mut r))]); }
             if r.chance(1, 4) { g.outs = vec![coin(&mut r)]; }
